@@ -11,7 +11,7 @@ LEAN_HELPERS = ['MV.Lemmas.Slice', 'MV.Lemmas.SliceSound', 'MV.Model.Slice', 'MV
                 'MV.Model.Basic']
 DRIVERS = ['C12']
 GEN = ['Tables', 'Library']
-SRC_TIE = ['SrcSlice']   # py2lean source image of get_melody_between proved equal to the model (MV/Props/TieSlice.lean)
+SRC_TIE = ['SrcSlice', 'SrcBetween']   # py2lean source images of get_melody_between (MV/Props/TieSlice.lean) and of get_chord_between / get_score_between / repeat_until_duration (MV/Props/TieSrcBetween.lean) proved equal to the model
 RULE = ('random scores (1-4 chords, 1-3 parts, rests / continuations anywhere, relative notes, dynamics, a drums part '
         'now and then, 12% with one or two chords without parts (duration 0); 80% with every part as long as its chord) '
         'x windows [a, b) whose ends are drawn from note '
@@ -313,7 +313,9 @@ def correspondence(ctx):
     ctx.compare('repeat', 'C12', cases)
     # kernel-level streams of the source tie (DESIGN §9.6)
     import srctie
-    srctie.run(ctx, SRC_TIE)
+    srctie.run(ctx, [g for g in SRC_TIE if not g.startswith('SrcBetween')])
+    # chord / score level kernels: bigger inputs, smaller streams
+    srctie.run(ctx, [g for g in SRC_TIE if g.startswith('SrcBetween')], quick=200, thorough=4000)
 
 # ----------------------------------------------------------------------------- the property itself (oracle)
 
@@ -498,7 +500,52 @@ def check_repeat(inp):
     return None
 
 
-ORACLES = {'duration': check_duration, 'window': check_window, 'rejoin': check_rejoin, 'repeat': check_repeat}
+def _as_kind(q, kind):
+    """the same number handed over as another kind of argument; None when `kind` cannot express it exactly"""
+    q = Fraction(q)
+    if kind == 'fraction':
+        return q
+    if kind == 'int':
+        return int(q) if q.denominator == 1 else None
+    if kind in ('float', 'npfloat'):
+        if q.denominator & (q.denominator - 1):          # not a power of two: a float would not be the same number
+            return None
+        import numpy as np
+        return float(q) if kind == 'float' else np.float64(float(q))
+    raise ValueError(kind)
+
+
+def check_entry(inp):
+    """the same window / repetition asked through another public entry point or with the cut points given as another
+    kind of number (int, float, numpy float when they express the value exactly) is the same score
+    (seed C12-6 snapped float cut points to eighths inside get_score_between)"""
+    from musiclang.write.time_utils import get_score_between, get_chord_between, repeat_until_duration
+    s = sound.load_score(inp['score'])
+    how, kind = inp['how'], inp['kind']
+    if how == 'repeat':
+        d = F(inp['d'])
+        v = _as_kind(d, kind)
+        if v is None:
+            return None
+        ref = py_res(lambda: show_score(s.repeat_until_duration(d)))
+        got = py_res(lambda: show_score(repeat_until_duration(s, v) if inp.get('function') else s.repeat_until_duration(v)))
+    else:
+        a, b = F(inp['a']), F(inp['b'])
+        va, vb = _as_kind(a, kind), _as_kind(b, kind)
+        if va is None or vb is None:
+            return None
+        if how == 'chord':
+            c = s.chords[0]
+            ref = py_res(lambda: show_chord(get_chord_between(c, a, b)))
+            got = py_res(lambda: show_chord(c.get_chord_between(va, vb)))
+        else:
+            ref = py_res(lambda: show_score(s.get_score_between(a, b)))
+            got = py_res(lambda: show_score(get_score_between(s, va, vb) if inp.get('function') else s.get_score_between(va, vb)))
+    return None if got == ref else {'observed': got[:600], 'expected': ref[:600]}
+
+
+ORACLES = {'duration': check_duration, 'window': check_window, 'rejoin': check_rejoin, 'repeat': check_repeat,
+           'entry': check_entry}
 
 WITNESSES = [
     # boundary coincidences the eight repository tests do not touch
@@ -613,3 +660,12 @@ def oracle(ctx):
         d = total * rng.randint(1, 3) if k < 0.3 else Fraction(rng.randint(1, int(total * 3 * 6) + 1), rng.choice(CUT_DENS))
         mult = 'multiple' if d % total == 0 else 'fraction'
         run(ctx, 'repeat', {'score': text, 'd': frac_str(d)}, mult, [mult])
+        # other entry points / kinds of argument, on cut points a float expresses exactly (sixteenths, thirty-seconds)
+        den = rng.choice([1, 2, 4, 16, 16, 32])
+        ea = Fraction(rng.randint(0, int(total * den)), den)
+        eb = ea + Fraction(rng.randint(1, int(total * den) + den), den)
+        kind = rng.choice(['float', 'float', 'npfloat', 'int', 'fraction'])
+        how = rng.choice(['score', 'score', 'chord', 'repeat'])
+        einp = {'score': text, 'how': how, 'kind': kind, 'function': rng.random() < 0.4, 'a': frac_str(ea), 'b': frac_str(eb),
+                'd': frac_str(eb)}
+        run(ctx, 'entry', einp, f'{how}:{kind}', [f'how={how}', f'kind={kind}'])
